@@ -112,6 +112,24 @@ func Pool() []Block {
 				N("200", "[@a]"),
 				N("500").WithKids(N("Body", "@a")))
 		})},
+		// schemas with allOf in every HTTP schema place of one interaction (the catalog expands them in
+		// passes over all interactions: a pass that stops early shows as an order dependence)
+		{Name: "H_inh", Kind: "http", Defines: []string{"path:/inh"}, Needs: []string{"@a"}, Nodes: one(func() *Node {
+			inh := func(own string) string { return "{ // {allOf: \"@a\"}\n  \"" + own + "\": 1\n}" }
+			return N("POST", "/inh/{id}/{nm}/{pown}").WithKids(
+				N("Path").WithBody(inh("pown")),
+				N("Query").WithBody(inh("qown")),
+				N("Request").WithKids(N("Headers").WithBody(inh("hown")), N("Body").WithBody(inh("bown"))),
+				N("200").WithKids(N("Headers").WithBody(inh("rhown")), N("Body").WithBody(inh("rbown"))))
+		})},
+		// free text directly followed by the shortest keyword lines there are (a response code with its
+		// body below, a method without parameters)
+		{Name: "H_d3", Kind: "http", Defines: []string{"path:/d3"}, Nodes: one(func() *Node {
+			return N("URL", "/d3").WithParen().WithKids(
+				N("GET").WithKids(N("Description").WithBody("Gets it"), N("200").WithBody("{\n  \"ok\": 1\n}")),
+				N("POST").WithKids(N("201", "empty"), N("Description").WithBody("Posts it\nin two lines")),
+				N("PUT").WithKids(N("404").WithBody("{}")))
+		})},
 		{Name: "H_tag", Kind: "http", Defines: []string{"path:/tagged"}, Needs: []string{"tag:@g"}, Nodes: one(func() *Node {
 			return N("DELETE", "/tagged").WithKids(N("Tags", "@g"), N("204", "empty"))
 		})},
